@@ -478,10 +478,35 @@ Definition cache_phase (s : state) (o : op) : state * list (arrv * arrv * arrv *
 Definition step (s : state) (o : op) : state * outcome :=
   let '(s1, cvs) := cache_phase s o in main s1 o cvs.
 
-Fixpoint run (s : state) (ops : list op) : list (state * outcome) :=
+Fixpoint run_ops (s : state) (ops : list op) : list (state * outcome) :=
   match ops with
   | [] => []
-  | o :: r => let so := step s o in so :: run (fst so) r
+  | o :: r => let so := step s o in so :: run_ops (fst so) r
+  end.
+
+(* ---- vocabulary of the theorems (definitions only) ---- *)
+(* states reachable by any history of public calls *)
+Inductive reachable : state -> Prop :=
+| reach_init : reachable (mkstate [] [] [] [] 0)
+| reach_step s o : reachable s -> reachable (fst (step s o)).
+
+(* what dft2/idft2 must return: a function of the argument's contents, the shapes and the scalar parameters *)
+Definition dft_spec (fv : arrv) (k : key) (inverse : bool) (params : list Z) : arrv :=
+  kf K 50 ((if inverse then kf K 51 [fv] [] else fv) :: cv_list (coords k)) (params ++ [if inverse then 1 else 0]).
+
+(* a history with, for every call, the state before and the state/outcome after *)
+Fixpoint trace (s : state) (ops : list op) : list (state * op * (state * outcome)) :=
+  match ops with
+  | [] => []
+  | o :: r => (s, o, step s o) :: trace (fst (step s o)) r
+  end.
+Definition dft_ok (x : state * op * (state * outcome)) : Prop :=
+  let '(pre, o, (post, out)) := x in
+  match o with
+  | ODft2 f k dst inverse params =>
+      forall a, getarr pre f = Some a -> o_status out = 0 ->
+      exists i, o_res out = VArr i /\ valof post i = dft_spec (valof pre a) k inverse params
+  | _ => True
   end.
 
 End Purity.
@@ -508,3 +533,17 @@ Definition odocumented (s : state) (o : op) : list oid :=
   end.
 (* operations that are specified to draw from the global generator (they take no seed) *)
 Definition uses_global_rng (o : op) : bool := match o with ORandFn _ _ => true | _ => false end.
+
+(* caller-visible ids are allocated *)
+Definition wf (s : state) : Prop := forall i, In i (visible s) -> (i < length (hp s))%nat.
+(* a cache entry holds exactly the coordinate vectors of its key, in buffers the caller cannot reach *)
+Definition cell_is (s : state) (a : aid) (v : arrv) : Prop :=
+  hget (hp s) a = Some (mkcell v false) /\ ~ In a (visible s).
+Definition centry_ok (s : state) (e : key * cent) : Prop :=
+  let '(k, (a, b, c, d)) := e in let '(cR, cS, cU, cV) := coords k in
+  cell_is s a cR /\ cell_is s b cS /\ cell_is s c cU /\ cell_is s d cV.
+Definition cache_ok (s : state) : Prop := forall e, In e (cache s) -> centry_ok s e.
+Definition inv (s : state) : Prop := wf s /\ cache_ok s.
+(* operations with a _dft2_coords phase; a state with the hidden components forgotten *)
+Definition uses_cache (o : op) : bool := match o with ODft2 _ _ _ _ _ | OPropDft _ _ _ => true | _ => false end.
+Definition forget (s : state) (r : Z) : state := mkstate (hp s) (ob s) (env s) [] r.
